@@ -298,6 +298,8 @@ def main():
                        'payload real-valued for cooked fields (polynomial / UF terms); kept fields are identity obligations']
     rep.bounds = {'levels': '1-2', 'boxes_per_level': '1-3', 'box_extent': '1-2'}
     common.run_cases(rep, run_case, cases())
+    from harness import k_lemmas
+    k_lemmas.run_into(rep, ['k_chefmove'])
     from harness import conformance
     conformance.run_into(rep)
     return rep.finish()
